@@ -127,6 +127,13 @@ Definition ga_has (C : crate_structs) (n : nshape) (T : elem) (t : atrait) : boo
 Definition iter_has (C : crate_structs) (n : nshape) (T : elem) (t : atrait) : bool :=
   struct_has (cs_iter C) (mkEnv T none_has (at_of C n T) (ga_has C n T)) t.
 
+(* how ArrayLength is closed to outside implementations *)
+Record sealing : Type := mkSealing {
+  al_supertrait_unsigned : bool;     (* typenum::Unsigned is itself sealed by typenum *)
+  al_arraytype_bound_sealed : bool;
+  sealed_is_private : bool
+}.
+
 (* ---------------------------------------------------------------- lifetimes *)
 
 Inductive lifetime : Type := LtNamed (i : nat) | LtStatic.
